@@ -205,6 +205,10 @@ def generate():
     unix = read('src/platform/unix/mod.rs')
     router = read('src/router.rs')
     ipc = read('src/ipc.rs')
+    try:
+        asynch = open(os.path.join(REPO, 'src/asynch.rs')).read()
+    except OSError:
+        asynch = ''
     env = {}
     files = {}
     errors = {}
@@ -438,8 +442,10 @@ def generate():
                  'Err(UnixError::Errno(code))ifcode==EWOULDBLOCK=>{break;},'
                  'Err(err)=>returnErr(err),}}')
         out.append(f"def shape_drainUntilWouldBlock : Bool := {'true' if drain in flat else 'false'}  -- every ready member is read until EWOULDBLOCK or closure; closure deregisters and closes")
-        per_event = 'foreventinself.events.iter(){assert!(event.is_readable());letevent_token=event.token();letpoll_entry=self.pollfds.get(&event_token).expect("Gotevent' in flat
-        out.append(f"def shape_everyEventServed : Bool := {'true' if per_event and 'Ok(selection_results)' in flat else 'false'}")
+        per_event = (wait + 'letmutselection_results=Vec::new();foreventinself.events.iter(){assert!(event.is_readable());letevent_token=event.token();'
+                     'letpoll_entry=self.pollfds.get(&event_token).expect("Gotevent') in flat
+        only_new = len(re.findall(r'self\.events=', flat)) == 0 and len(re.findall(r'events:Events::with_capacity', flat)) == 1
+        out.append(f"def shape_everyEventServed : Bool := {'true' if per_event and only_new and 'Ok(selection_results)' in flat else 'false'}  -- the batch the wait returned is the batch that is served")
     run_unit('GenSet', unit_set)
     def unit_timed(out):
         # receive modes (C10): the flag is set before and cleared after the first recvmsg
@@ -604,6 +610,27 @@ def generate():
         out.append(f"def shape_shmEmptySentinel : Bool := {'true' if 'ifindex==usize::MAX{Ok(IpcSharedMemory::empty())}' in flat and '}else{usize::MAX}.serialize(serializer)' in flat else 'false'}")
         out.append("")
     run_unit('GenIpc', unit_ipc)
+    def unit_async(out):
+        # the routing thread of the async feature (C20): every select result is handled, messages are forwarded to the route's
+        # queue, a closure removes the route (dropping the queue's sender ends the stream), every pending registration is taken
+        if not asynch:
+            fail("src/asynch.rs not found")
+        flat = re.sub(r'\s+', '', strip_comments(asynch))
+        loop_head = 'whileletOk(mutselections)=receivers.select(){forselectioninselections.drain(..){matchselection{'
+        arm_msg = 'IpcSelectionResult::MessageReceived(id,msg)=>{ifletSome(sender)=senders.get(&id){let_=sender.unbounded_send(msg);}},'
+        arm_closed = 'IpcSelectionResult::ChannelClosed(id)=>{senders.remove(&id);},'
+        regs = 'if!recv.is_terminated(){whileletOk(Some((receiver,sender)))=recv.try_next(){ifletOk(id)=receivers.add_opaque(receiver){senders.insert(id,sender);}}}'
+        whole = loop_head + arm_msg + arm_closed + '}}' + regs + '}'
+        out.append(f"def shape_asyncEveryResult : Bool := {'true' if whole in flat else 'false'}  -- the loop body is exactly: handle every result of the batch, then take every registration")
+        out.append(f"def shape_asyncForward : Bool := {'true' if arm_msg in flat else 'false'}")
+        out.append(f"def shape_asyncClosedRemoves : Bool := {'true' if arm_closed in flat else 'false'}")
+        out.append(f"def shape_asyncRegistersAll : Bool := {'true' if regs in flat else 'false'}")
+        i_reg = flat.find('let_=ROUTER.add_route.unbounded_send((opaque,send));')
+        i_wake = flat.find('ifletOk(waker)=ROUTER.wakeup.lock(){let_=waker.send(());}')
+        out.append(f"def shape_toStreamRegistersThenWakes : Bool := {'true' if 0 <= i_reg < i_wake else 'false'}")
+        pn = 'matchrecv.poll_next(ctx){Poll::Ready(Some(msg))=>Poll::Ready(Some(msg.to())),Poll::Ready(None)=>Poll::Ready(None),Poll::Pending=>Poll::Pending,}'
+        out.append(f"def shape_pollNextPassesThrough : Bool := {'true' if pn in flat else 'false'}")
+    run_unit('GenAsync', unit_async)
     def unit_router(out):
         # Router (C07/C17): which variant of the model the source is — each flag is a statement-order / arm-shape fact
         _, _, run = find_fn(router, 'run')
